@@ -32,6 +32,8 @@ pub struct SimDef {
     pub prop: &'static str,
     pub run: fn() -> SimResult,
     pub about: &'static str,
+    /// fault enumeration (thorough tier): all variants of a base run's choices to execute as well
+    pub enumerate: Option<fn(&[u32]) -> Vec<Vec<u32>>>,
 }
 
 pub static CURRENT_RUN: AtomicI64 = AtomicI64::new(-1);
@@ -257,6 +259,10 @@ pub struct WorkerResult {
     pub sched_hashes_file: String,
     pub choices_drawn: u64,
     pub stopped_early: bool,
+    #[serde(default)]
+    pub enumerated_bases: u64,
+    #[serde(default)]
+    pub enumerated_variants: u64,
 }
 
 fn write_hashes(path: &str, set: &HashSet<u64>) {
@@ -286,6 +292,8 @@ pub struct WorkerArgs {
     pub max_violations: usize,
     /// determinism self-test: one line per run (run index, trace hash, choice count, class)
     pub hash_log: Option<String>,
+    /// execute the sim's fault enumeration after every base run
+    pub enumerate: bool,
 }
 
 pub fn worker(a: WorkerArgs) -> i32 {
@@ -323,6 +331,27 @@ pub fn worker(a: WorkerArgs) -> i32 {
                     detail: "re-executing the recorded choices gave a different trace".into(),
                     choices: r.choices.clone(),
                 });
+            }
+        }
+        if a.enumerate && r.violation.is_none() {
+            if let Some(en) = a.sim.enumerate {
+                let variants = en(&r.choices);
+                res.enumerated_bases += 1;
+                for var in variants {
+                    let rv = execute(a.sim, Source::Replay(&var), false);
+                    res.done += 1;
+                    res.enumerated_variants += 1;
+                    if rv.trace.nontrivial {
+                        res.nontrivial_runs += 1;
+                        hashes.insert(rv.trace.hash);
+                    }
+                    if let Some(v) = rv.violation {
+                        if classes_seen.insert(v.class.clone()) || res.violations.len() < 2 {
+                            res.violations.push(FoundViolation { run: run as i64, class: v.class, detail: v.detail, choices: rv.choices });
+                        }
+                        break;
+                    }
+                }
             }
         }
         if let Some(v) = r.violation {
